@@ -579,7 +579,10 @@ func (it *symStringIter) next(fr *frame) tuple {
 func (fr *frame) rangeIter(x value, t types.Type) iter {
 	switch x := x.(type) {
 	case *smap:
-		return fr.p.newMapIter(x)
+		// iteration order is explored for loops in grpchan's own code (not in the
+		// libraries it calls, nor in harness code)
+		explore := fr.p.eng.inRepo(fr.fn) && !fr.p.eng.isHarnessFn(fr.fn)
+		return fr.p.newMapIterIn(x, explore)
 	case Str:
 		if x.b == nil {
 			return &stringIter{s: x.s}
